@@ -180,6 +180,7 @@ type c25stats struct {
 	charsRule, sqlLookups, sqlRange, plansIndexed, plansNot, commits, staged               int
 	nullEntries, dupKeyEntries                                                               int
 	script                                                                                   *[]string // statements of the running program (witness)
+	lastKind                                                                                 string    // kind of the statement executed last (part of violation keys: when the disagreement first shows)
 }
 
 func trimPrefix(v string, n int, chars bool) string {
@@ -492,6 +493,11 @@ func checkTable(c *rig.Ctx, x *sqlrig.Session, root doltdb.RootValue, qual, asOf
 			if len(b) > 6 {
 				b = b[:6]
 			}
+			if strings.HasPrefix(label, "commit:") {
+				kind += "/in-commit"
+			} else {
+				kind += "/after-" + st.lastKind
+			}
 			c.Violation("c25/mirror/"+kind, fmt.Sprintf("index %s of %s in %s holds %d entries, the rows imply %d; it is not the set derived from the rows", ix.Name, tname, label, len(actual), len(want)),
 				witness(map[string]any{"index": ix.Name, "create": text, "only_in_index": visAll(a), "only_derived_from_rows": visAll(b)}))
 			continue
@@ -712,6 +718,10 @@ func (p *c25prog) def() *tableDef {
 // run executes one statement; failures are legal (duplicate keys, schema conflicts...), only counted.
 func (p *c25prog) run(kind, q string) bool {
 	p.log = append(p.log, q)
+	p.st.lastKind = kind
+	if strings.HasPrefix(q, "insert ignore") {
+		p.st.lastKind = "insert-ignore"
+	}
 	p.c.Case(p.db, map[string]any{"db": p.db, "n": len(p.log), "stmt": q})
 	_, err := p.x.Query(q)
 	if err != nil {
